@@ -291,7 +291,8 @@ def run_replay_file(pid, path):
 # ------------------------------------------------------------------ evidence
 def write_evidence(pid, tier, seed, P, gens, meta, real, canaries, failed, violations, undecided, known_hits, t_start, rc):
     from collections import Counter
-    os.makedirs(os.path.join(VERIF, "evidence"), exist_ok=True)
+    evdir = os.environ.get("PYVC_EVIDENCE_DIR") or os.path.join(VERIF, "evidence")
+    os.makedirs(evdir, exist_ok=True)
     index = P.index
     funcs = {}
     for g in gens:
@@ -345,7 +346,7 @@ def write_evidence(pid, tier, seed, P, gens, meta, real, canaries, failed, viola
         wall_s=round(time.time() - t_start, 2),
         violations=len({obligation_key(m) for m, _, _ in violations}),
     )
-    json.dump(ev, open(os.path.join(VERIF, "evidence", f"{pid}.json"), "w"), indent=1)
+    json.dump(ev, open(os.path.join(evdir, f"{pid}.json"), "w"), indent=1)
 
 
 if __name__ == "__main__":
